@@ -44,7 +44,7 @@ pub fn run_vamm(out: &mut dyn Write, seed: u64, thorough: bool, n_hist: usize) {
             tr.step(&mut w, &Op::Vamm { sender: ID_OWNER, v, m: VMsg::UpdCfg { hold: None, oi: None, toll: None, spread: None, fluct: None, engine: Some(FAKE_ENGINE), ifund: None, feed: None, twap: None } });
             tr.step(&mut w, &Op::Vamm { sender: ID_OWNER, v, m: VMsg::SetOpen(true) });
         }
-        let spot = w.d.vamms[0].q * u / w.d.vamms[0].b;
+        let spot = match w.d.vamms[0].q.checked_mul(u) { Some(x) => x / w.d.vamms[0].b, None => w.d.vamms[0].q / w.d.vamms[0].b * u };
         tr.step(&mut w, &Op::Feed { sender: ID_OWNER, m: PMsg::Append { price: spot, t: bi.time.seconds() } });
         let len = if thorough { 60 + rng.below(60) } else { 30 + rng.below(25) };
         for _ in 0..len {
@@ -455,7 +455,16 @@ pub fn run_twin(out: &mut dyn Write, seed: u64, thorough: bool, n_hist: usize) {
                         steer_liquidatable(&mut trn, &mut wn, &mut r2, v, t);
                         rng = r1; continue; }
                 };
-                trc.step(&mut wc, &opc);
+                // the cw20 deployment runs first; what it actually pulled from the caller (the drop of the caller's
+                // allowance to the engine) is what the native call attaches; when the cw20 call fails, the predicted amount
+                let snd = match &opc { Op::Eng { sender, .. } => Some(*sender), _ => None };
+                let a0 = snd.and_then(|t| wc.allowance(t));
+                let okc = trc.step(&mut wc, &opc);
+                let a1 = snd.and_then(|t| wc.allowance(t));
+                let opn = match (okc, a0, a1, opn) {
+                    (true, Some(x), Some(y), Op::Eng { sender, m, .. }) if x >= y => Op::Eng { sender, funds: x - y, m },
+                    (_, _, _, o) => o,
+                };
                 trn.step(&mut wn, &opn);
             }
             trc.end();
